@@ -2,7 +2,7 @@
   C07 — property theorems, part 12: the hypothesis `RegOK` is SATISFIABLE by the registries the library builds
   (repair of audit finding C07-F1).
 
-  Before this repair `CustomOK` admitted the literal `null`; `default_scalar`'s `_untyped_literal` answers `None` to it, so
+  Before this repair `CustomOK` allowed the literal `null`; `default_scalar`'s `_untyped_literal` answers `None` to it, so
   `CustomOK reg n .none` held and `RegOK.customNotNone` was FALSE for every registry holding an SDL `scalar X`: every soundness
   theorem was vacuous for such schemas. `CustomOK` now only speaks of the inputs `value_from_ast` really hands to a scalar's
   parser (never `null`, never a bare `$x`), and this file PROVES, for the stand-in scalar:
